@@ -177,6 +177,8 @@ def run(ctx):
                         return
                     amp.set_params(p1)
                     data = cfg.data.cal_angle([np.ascontiguousarray(p) for p in ps], **extra)
+                    for k_, v_ in extra.items():  # as SimpleData.load_data does with its extra columns
+                        data[k_] = v_
                     g1 = np.asarray(amp(data))
                     g1b = np.asarray(amp(data))  # second call: cached-function path of AbsPDF.__call__
                     amp.set_params(p2)
@@ -220,12 +222,20 @@ def run(ctx):
                                  decay_opts_prob=0.0).make()
         except RuntimeError:
             continue
+        cp_lik = i % 4 == 1  # CP-violating chain couplings and samples of both charges
+        if cp_lik:
+            card["config"]["decay_chain"] = {"$all": {"is_cp": True}}
+        kf_cpl = " [is_cp chains, events of both charges]" if cp_lik else ""
+        ctx.covered("cp_violating_chains(likelihood)", cp_lik)
         ctx.context = {"card": cards.short(card), "index": i}
 
         def toy(cfg, n, r, with_cfit=False, weighted=None):
             pp = cards.events(card, n, r, classes=False)
+            ex = {"charge_conjugation": r.choice([1.0, -1.0], n)} if cp_lik else {}
             with quiet():
-                d = cfg.data.cal_angle([np.ascontiguousarray(p) for p in pp])
+                d = cfg.data.cal_angle([np.ascontiguousarray(p) for p in pp], **ex)
+            for k_, v_ in ex.items():
+                d[k_] = v_
             if with_cfit:
                 d["bg_value"] = r.uniform(0.5, 1.5, n)
                 d["eff_value"] = r.uniform(0.5, 1.0, n)
@@ -304,7 +314,7 @@ def run(ctx):
                         worst, where = m, {"data_set": si, "point": pi, "value": (val, v2), "value_default": (bval, bv2)}
             ctx.dev(monitor + " (dev/tol)", worst, 1.0)
             ctx.check(monitor, worst <= 1.0, lambda: {"config": card["config"], "opts": opts, "param_key": [ctx.seed, i], "worst_ratio": worst, "where": where},
-                      mechanism=monitor)
+                      mechanism=monitor + kf_cpl)
             ctx.case(cards.card_digest_key(card) + ("lik", name), nontrivial=True)
 
         compare("cached_int", {"bg_weight": 0.3, "cached_int": True}, ref)
